@@ -160,7 +160,11 @@ func CallGoMethodFunction(env *Zlisp, name string, args []Sexp) (Sexp, error) {
 			default:
 				// go through the type registry
 				found := false
-				for hashName, factory := range GoStructRegistry.Registry {
+				for _, hashName := range ListRegisteredTypes {
+					factory := GoStructRegistry.Registry[hashName]
+					if factory == nil {
+						continue
+					}
 					st, err := factory.Factory(env, nil)
 					if err != nil {
 						return SexpNull, fmt.Errorf("MakeHash '%s' problem on Factory call: %s",
